@@ -74,7 +74,7 @@ TABLE_FACTORS = (1.0, 1.125, 1.25, 1.375, 1.5)
 
 
 def table_factor(tab, Z):
-    return TABLE_FACTORS[Z % 5] if tab == 'scaled' else 1.0
+    return TABLE_FACTORS[Z % 5] if (tab == 'scaled' and _s.get('scaled', True)) else 1.0
 
 
 def _mass(k):
@@ -349,17 +349,50 @@ def _post(kind, pairs, result, caller):
     return None
 
 
-def _install_wrappers():
+def _caller_name():
+    """Name of the nearest calling function that is one of the known entry points (the mixer may be reached
+    through private helpers in a refactored tree); 'other' when there is none."""
+    f = sys._getframe(2)
+    depth = 0
+    while f is not None and depth < 12:
+        if f.f_code.co_name in CALLERS:
+            return f.f_code.co_name
+        f = f.f_back
+        depth += 1
+    return 'other'
+
+
+def _install_wrappers(ctx):
+    """Postcondition wrappers on the PRIVATE mixers _mix_by_weight_pairs / _mix_by_volume_pairs: optional
+    instrumentation.  Absent name: skipped, the requirements on its evaluation are waived.  A call that is not
+    the pinned form (one iterable of (formula, quantity) pairs) is passed through un-judged."""
     from periodictable import formulas
     from collections import Counter
+    from ..gen.formulas import private
     _s['n'] = Counter()
     _s['post_failures'] = []
+    Formula = formulas.Formula
 
     def wrap(kind, orig):
-        def wrapper(pairs):
-            pairs = list(pairs)                      # the grammar actions pass zip iterators
+        def wrapper(*args, **kw):
+            pairs = None
+            if len(args) == 1 and not kw:
+                try:
+                    pairs = list(args[0])                # the grammar actions pass zip iterators
+                    if not all(isinstance(p, (tuple, list)) and len(p) == 2 and isinstance(p[0], Formula)
+                               for p in pairs):
+                        args = (pairs,)
+                        pairs = None
+                except TypeError:
+                    pairs = None
+            if pairs is None:
+                _s['n']['contract._mix_by_%s_pairs.unrecognised_call' % kind] += 1
+                return orig(*args, **kw)
             result = orig(pairs)
-            caller = sys._getframe(1).f_code.co_name
+            caller = _caller_name()
+            if not isinstance(result, Formula):
+                _s['n']['contract._mix_by_%s_pairs.unrecognised_call' % kind] += 1
+                return result
             try:
                 msg = _post(kind, pairs, result, caller)
             except Exception as exc:                 # a crash of the postcondition itself is reported, not raised
@@ -367,12 +400,19 @@ def _install_wrappers():
             if msg:
                 _s['post_failures'].append('_mix_by_%s_pairs called by %s: %s' % (kind, caller, msg))
             return result
-        wrapper.__name__ = orig.__name__
+        wrapper.__name__ = getattr(orig, '__name__', 'wrapper')
         wrapper.__wrapped__ = orig
         return wrapper
 
-    formulas._mix_by_weight_pairs = wrap('weight', formulas._mix_by_weight_pairs)
-    formulas._mix_by_volume_pairs = wrap('volume', formulas._mix_by_volume_pairs)
+    installed = []
+    for kind, callers in (('weight', ('convert_by_weight', 'convert_by_absmass', 'mix_by_weight')),
+                          ('volume', ('convert_by_volume', 'convert_by_layer', 'mix_by_volume'))):
+        name = '_mix_by_%s_pairs' % kind
+        orig = private(ctx, formulas, name, waived=['contract.caller.' + c for c in callers])
+        if orig is not None and callable(orig):
+            setattr(formulas, name, wrap(kind, orig))
+            installed.append(kind)
+    return installed
 
 
 def _drain(ctx, problems, label):
@@ -380,14 +420,6 @@ def _drain(ctx, problems, label):
     if fails:
         problems.append('%s: postcondition %s' % (label, fails[0]))
         del fails[:]
-
-
-def _nested_code(code, names, out):
-    for c in code.co_consts:
-        if hasattr(c, 'co_name'):
-            if c.co_name in names:
-                out[c.co_name] = c
-            _nested_code(c, names, out)
 
 
 ACTIONS = ('convert_by_weight', 'convert_by_volume', 'convert_by_layer', 'convert_by_absmass', 'convert_mixture')
@@ -402,24 +434,25 @@ def setup(ctx):
     from ..statemon import Reach
     from ..atoms import lookup
     from ..gen.mixtures import Lib, ALL_UNITS, WT_SPELLINGS, VOL_SPELLINGS
-    from periodictable import core, mass, density
+    from ..gen.formulas import private_table_with_other_masses, watch_nested
     _s['model'] = MassModel()
     _s['me'] = pt.constants.electron_mass
     _s['cur'] = 'public'
-    # private table whose masses differ from the public ones (components built on it must stay on it)
-    T = core.PeriodicTable('c11_scaled_%d' % ctx.shard)
-    mass.init(T)
-    density.init(T)
-    for el in T:
-        k = table_factor('scaled', el.number)
-        el._mass = el._mass * k
-        for iso in el:
-            iso._mass = iso._mass * k
+    # private table whose masses differ from the public ones (components built on it must stay on it).  No public
+    # route gives a table other masses: when the private attribute behind .mass cannot be written in this tree the
+    # table keeps the tabulated masses and the model uses factor 1 for it.
+    _s['scaled'] = True
+    T, scaled = private_table_with_other_masses('c11_scaled_%d' % ctx.shard, lambda Z: table_factor('scaled', Z))
+    _s['scaled'] = scaled
+    if not scaled:
+        ctx.count('setup.scaled-table-unavailable')
+        ctx.note('the masses of a private table could not be changed through the private attribute behind .mass '
+                 '(refactored source); the cases of the scaled table run on a private table with the tabulated masses')
     _s['tables'] = {'public': pt.elements, 'scaled': T}
     _s['symbol'] = {el.number: el.symbol for el in pt.elements}
     _s['known'] = sorted(el.number for el in pt.elements
                          if el.number >= 1 and _s['model'].density.get(el.symbol) is not None)
-    _install_wrappers()
+    _install_wrappers(ctx)
     def on_table(fn, table):
         def call(*args, **kw):
             return fn(*args, table=table, **kw)
@@ -442,10 +475,10 @@ def setup(ctx):
                               lookup_T),
     }
     reach = Reach()
-    found = {}
-    _nested_code(formulas.formula_grammar.__code__, set(ACTIONS), found)
-    for name, code in found.items():
-        reach.codes[code] = name
+    # the five mixture parse actions are nested functions of formula_grammar on the pinned tree (private names):
+    # one that was renamed / moved has its reach counter and its "called the mixer from here" counter waived
+    watch_nested(ctx, reach, getattr(formulas, 'formula_grammar', None), ACTIONS,
+                 extra_waived={a: ['contract.caller.' + a] for a in ACTIONS if a in CALLERS})
     reach.start()
     _s['reach'] = reach
     if not ctx.replay:
@@ -702,11 +735,14 @@ def classify(rec):
     msg = rec.get('msg', '')
     if rec.get('check') != 'mixture' or d.get('stage') != 'string':
         return None
-    if d.get('exc_type') == 'AttributeError' and "no attribute 'absthick'" in msg and feats == ['layer-repeat']:
+    # public symptoms only: the string form is rejected with an exception (whatever its type and text) although the
+    # case carries exactly one triggering feature and (where a sibling exists) the respelled sibling is accepted
+    if not d.get('exc_type'):
+        return None
+    if feats == ['layer-repeat']:
         return 'c11.repeated-layer-group'
-    if d.get('exc_type') == 'ValueError' and 'unknown element L' in msg and feats == ['litre-first'] \
-            and d.get('sibling_ok') is True:
+    if feats == ['litre-first'] and d.get('sibling_ok') is True:
         return 'c11.litre-first-part'
-    if d.get('exc_type') == 'ParseException' and feats == ['count-after-percent'] and d.get('sibling_ok') is True:
+    if feats == ['count-after-percent'] and d.get('sibling_ok') is True:
         return 'c11.count-after-percent-space'
     return None
